@@ -1,7 +1,7 @@
 """C02 — polarity likelihoods: correspondence and oracle."""
 import math
 
-from common import Prop, bits, close, reply_floats, import_mtfit, NEG_INF, main
+from common import Failure, Prop, bits, close, reply_floats, import_mtfit, NEG_INF, main
 
 
 def unit6(rng):
@@ -296,6 +296,81 @@ class C02(Prop):
                         break
         return out
 
+    def _extra_glue(self, rng, tier):
+        """The same formula reached through the glue that feeds it (data dictionaries -> polarity_matrix -> ForwardTask): an event whose polarity type has one
+        station (with amplitude-ratio data next to it), and events whose location samples cover every station, listed in non-alphabetical order, with a
+        different mis-pick probability per station.  Expected values from the per-station formula with the coefficients of datagen.coeff_row."""
+        import random
+        import datagen as dg
+        np = self.np
+        from MTfit import inversion as inv
+        fails, cov = [], {'glue_events': 0}
+        rr = random.Random(77)
+
+        def phi(x):
+            return 0.5 * (1.0 + math.erf(x / math.sqrt(2)))
+
+        def station_p(row, mt, az=None, toa=None):
+            a = sum(c_ * m_ for c_, m_ in zip(dg.coeff_row('p', row['az'] if az is None else az, row['toa'] if toa is None else toa), mt))
+            y, sg, w = row['measured'][0], row['error'][0], (row['ipp'] or 0.0)
+            return (1 - w) * phi(y * a / sg) + w * phi(-y * a / sg)
+
+        def run(ev, mts, keys=None):
+            data, loc = dg.to_mtfit({'types': {k: v for k, v in ev['types'].items() if keys is None or k in keys}, 'loc': ev['loc'], 'weights': None}, np)
+            a_pol, err_pol, ipp = inv.polarity_matrix(data, loc)
+            a1, a2, ratio, pe1, pe2 = inv.amplitude_ratio_matrix(data, loc)
+            res = inv.ForwardTask(np.array(mts, dtype=float).T, a_pol, err_pol, a1, a2, ratio, pe1, pe2, False, False, False, ipp, return_zero=True, marginalise=True)()
+            lp = res['ln_pdf']
+            return np.asarray(lp._ln_pdf if hasattr(lp, '_ln_pdf') else lp, dtype=float).flatten()
+        mts = []
+        for _ in range(6):
+            v = [rr.gauss(0, 1) for _ in range(6)]
+            n_ = math.sqrt(sum(x * x for x in v))
+            mts.append([x / n_ for x in v])
+        for rep in range(3 if tier == 'quick' else 12):
+            # (a) one polarity station, two amplitude-ratio stations
+            prow = {'name': 'S07', 'az': rr.uniform(0, 360), 'toa': rr.uniform(20, 160), 'measured': [rr.choice([-1.0, 1.0])], 'error': [rr.choice([0.2, 0.5])],
+                    'ipp': rr.choice([None, 0.2])}
+            ar = [{'name': nm, 'az': rr.uniform(0, 360), 'toa': rr.uniform(20, 160), 'measured': [rr.uniform(0.5, 2), rr.uniform(0.5, 2)],
+                   'error': [rr.uniform(0.1, 0.4), rr.uniform(0.1, 0.4)], 'ipp': None} for nm in ('S03', 'S11')]
+            ev = {'types': {'PPolarity': [prow], 'P/SHAmplitudeRatio': ar}, 'loc': None, 'weights': None}
+            full, only = run(ev, mts), run(ev, mts, keys=['P/SHAmplitudeRatio'])
+            cov['glue_events'] += 1
+            for j, mt in enumerate(mts):
+                exp = math.log(max(station_p(prow, mt), 1e-300))
+                if full.shape != only.shape or not abs((full[j] - only[j]) - exp) < 1e-7 * (1 + abs(exp)):
+                    fails.append(Failure('property', {'kind': 'glue-one-station', 'row': prow, 'tensor': mt},
+                                         'an event with one polarity station: the polarity factor of the forward task is exp(%r), the formula gives exp(%r)'
+                                         % (float(full[j] - only[j]) if full.shape == only.shape else None, exp), key='glue-one-station'))
+                    break
+            # (b) location samples covering every station, names not in alphabetical order, a different mis-pick probability per station
+            names = ['S09', 'S02', 'S15', 'S04']
+            ws = [0.0, 0.1, 0.3, 0.45]
+            rows = [{'name': nm, 'az': rr.uniform(0, 360), 'toa': rr.uniform(20, 160), 'measured': [rr.choice([-1.0, 1.0])], 'error': [0.3], 'ipp': w}
+                    for nm, w in zip(names, ws)]
+            order = ['S04', 'S15', 'S09', 'S02']
+            samples = [[(rr.uniform(0, 360), rr.uniform(20, 160)) for _nm in order] for _k in range(3)]
+            ev = {'types': {'PPolarity': rows}, 'loc': {'names': order, 'samples': samples}, 'weights': None}
+            got = run(ev, mts)
+            cov['glue_events'] += 1
+            exp = []
+            for mt in mts:
+                tot = 0.0
+                for smp in samples:
+                    pr_ = 1.0
+                    for row in rows:
+                        az, toa = smp[order.index(row['name'])]
+                        pr_ *= station_p(row, mt, az, toa)
+                    tot += pr_
+                exp.append(math.log(max(tot, 1e-300)))
+            # compare up to the common normalisation of the sample sum
+            dev = max(abs((got[j] - got[0]) - (exp[j] - exp[0])) for j in range(len(mts))) if len(got) == len(mts) else float('inf')
+            if not dev < 1e-7:
+                fails.append(Failure('property', {'kind': 'glue-location-mispick', 'rows': rows, 'location_order': order},
+                                     'location samples covering every station (stations not in alphabetical order, a different mis-pick probability per station): '
+                                     'log-probabilities relative to the first tensor differ from the per-station formula by %r' % dev, key='glue-location-mispick'))
+        return cov, fails[:3]
+
     def nontrivial(self, case, impl):
         if 'A' in case:
             return case['A'] != 0.0
@@ -324,7 +399,9 @@ class C02(Prop):
         fails = []
         if worst > 2e-15:
             fails.append(Failure('mismatch', {'kind': 'erf-grid'}, 'Lean erf differs from scipy erf by %r' % worst))
-        return {'erf_grid_points': len(xs), 'erf_max_abs_difference': worst}, fails
+        gcov, gfails = self._extra_glue(rng, tier)
+        gcov.update({'erf_grid_points': len(xs), 'erf_max_abs_difference': worst})
+        return gcov, fails + gfails
 
 
 if __name__ == '__main__':
